@@ -11,7 +11,7 @@ AST (tuples):
              ("rangeint", label, x, e, body) ("rangearr", label, i, v, e, T, body) ("switch", tag|None, [(vals|None, body, fallthrough)])
              ("break", label|None) ("continue", label|None) ("return", [e]) ("expr", call) ("defer", call) ("gowait", call)
              ("panic", e) ("print", [e]) ("goexit",) ("block", [stmt]) ("calls", [x...], call)  (multi-value call)
-             ("recover", x)
+             ("recover", x) ("rangefunc", label, [x...], seq_expr, body)   (for x... := range seq_expr; desugared for the machine)
   expr     : ("int", n) ("bool", b) ("str", s) ("nil",) ("var", x) ("bin", op, a, b) ("not", a) ("neg", a) ("field", e, f)
              ("index", e, i) ("len", e) ("deref", e) ("addr", lv) ("call", callee, [args]) ("funclit", func)
              ("mkstruct", N, [(f, e)]) ("mkarr", T, [e]) ("iface", I, dyn, e) ("assert", e, dyn, T) ("isnil", e)
@@ -199,6 +199,14 @@ class Render:
             L("\t_, _ = %s, %s" % (i, v))
             self.block(body, ind + 1)
             L("}")
+        elif k == "rangefunc":
+            _, label, xs, e, body = s
+            if label:
+                self.line(ind, label + ":")
+            L("for %s := range %s {" % (", ".join(xs), self.expr(e)))
+            L("\t%s = %s" % (", ".join("_" for _ in xs), ", ".join(xs)))
+            self.block(body, ind + 1)
+            L("}")
         elif k == "switch":
             L("switch %s {" % (self.expr(s[1]) if s[1] is not None else ""))
             for vals, body, ft in s[2]:
@@ -318,7 +326,11 @@ def render(prog, pkg="main", imports=("runtime", "sync"), only_lib=None):
         out.append("var _ = runtime.Goexit")
         out.append("var _ sync.WaitGroup")
     out.append(PRELUDE)
+    if not only_lib:
+        out += list(prog.get("rawdecls", ())) + [""]
     for n, fields in (prog.get("structs", {}) if not only_lib else {}).items():
+        if "[" in n:
+            continue        # instantiation of a generic struct: declared once in rawdecls
         out.append("type %s struct {" % n)
         for f, t in fields:
             emb = prog.get("embedded", {}).get(n, ())
@@ -402,6 +414,104 @@ def mexpr_const(e):
     raise ValueError(e)
 
 
+class RangeFuncDesugar:
+    """for x := range seq { body }  ==>  the Go spec's reading of a range over a function: seq is called once with a
+    synthesised yield function whose body is the loop body; break / continue / return / jumps to outer labels become
+    "return false|true" of that function plus a state variable inspected after seq returns; a defer statement in the loop
+    body belongs to the enclosing function (machine instruction defer-at-frame)."""
+
+    def __init__(self, L, f):
+        self.L = L
+        self.f = f
+        self.fr = None
+
+    def run(self):
+        body = self.stmts(self.f["body"])
+        if self.fr:
+            body = [("depth", self.fr)] + body
+        return body
+
+    def stmts(self, ss):
+        return [t for s in ss for t in self.stmt(s)]
+
+    def stmt(self, s):
+        k = s[0]
+        if k == "if":
+            return [("if", s[1], self.stmts(s[2]), self.stmts(s[3]))]
+        if k == "for":
+            return [("for", s[1], s[2], s[3], s[4], self.stmts(s[5]))]
+        if k == "rangeint":
+            return [("rangeint", s[1], s[2], s[3], self.stmts(s[4]))]
+        if k == "rangearr":
+            return [("rangearr", s[1], s[2], s[3], s[4], s[5], self.stmts(s[6]))]
+        if k == "switch":
+            return [("switch", s[1], [(vals, self.stmts(body), ft) for vals, body, ft in s[2]])]
+        if k == "block":
+            return [("block", self.stmts(s[1]))]
+        if k == "rangefunc":
+            return self.expand(s[1], s[2], s[3], self.stmts(s[4]))
+        return [s]
+
+    def expand(self, label, xs, seq, body):
+        st = self.L.temp()
+        ok = self.L.temp()
+        if self.fr is None:
+            self.fr = self.L.temp()
+        codes = {}
+        V = lambda x: ("var", x)
+        leave = lambda code: [("assign", [V(st)], [("int", code)]), ("return", [("bool", False)])]
+
+        def tr(ss, inner, in_break, in_loop):
+            out = []
+            for s in ss:
+                k = s[0]
+                if k == "break":
+                    lab = s[1]
+                    if (lab is None and in_break) or (lab is not None and lab in inner):
+                        out.append(s)
+                    elif lab is None or lab == label:
+                        out += leave(1)
+                    else:
+                        out += leave(codes.setdefault(("break", lab), 3 + len(codes)))
+                elif k == "continue":
+                    lab = s[1]
+                    if (lab is None and in_loop) or (lab is not None and lab in inner):
+                        out.append(s)
+                    elif lab is None or lab == label:
+                        out.append(("return", [("bool", True)]))
+                    else:
+                        out += leave(codes.setdefault(("continue", lab), 3 + len(codes)))
+                elif k == "return":
+                    if s[1]:
+                        out.append(("assign", [V(x) for x, _ in self.f["results"]], list(s[1])))
+                    out += leave(2)
+                elif k == "defer":
+                    out.append(("deferat", self.fr, s[1]))
+                elif k == "if":
+                    out.append(("if", s[1], tr(s[2], inner, in_break, in_loop), tr(s[3], inner, in_break, in_loop)))
+                elif k == "for":
+                    out.append(("for", s[1], s[2], s[3], s[4], tr(s[5], inner + [s[1]], True, True)))
+                elif k == "rangeint":
+                    out.append(("rangeint", s[1], s[2], s[3], tr(s[4], inner + [s[1]], True, True)))
+                elif k == "rangearr":
+                    out.append(("rangearr", s[1], s[2], s[3], s[4], s[5], tr(s[6], inner + [s[1]], True, True)))
+                elif k == "switch":
+                    out.append(("switch", s[1], [(vals, tr(b, inner, True, in_loop), ft) for vals, b, ft in s[2]]))
+                elif k == "block":
+                    out.append(("block", tr(s[1], inner, in_break, in_loop)))
+                else:
+                    out.append(s)
+            return out
+        lit = {"name": "", "params": [(x, "int") for x in xs], "results": [(ok, "bool")],
+               "body": tr(body, [], False, False) + [("return", [("bool", True)])]}
+        out = [("decl", st, "int", ("int", 0)),
+               ("expr", ("call", ("clo", seq), [("funclit", lit)])),
+               ("if", ("bin", "==", V(st), ("int", 2)), [("return", [])], [])]
+        for (kind, lab), code in codes.items():
+            out.append(("if", ("bin", "==", V(st), ("int", code)), [(kind, lab)], []))
+        return out
+
+
 class FuncLower:
     def __init__(self, L, f):
         self.L = L
@@ -419,7 +529,7 @@ class FuncLower:
         return len(self.code) + 1
 
     def run(self):
-        self.block(self.f["body"])
+        self.block(RangeFuncDesugar(self.L, self.f).run())
         return self.code
 
     # ---- expressions: returns a pure machine expression, emitting instructions for calls / closures
@@ -693,6 +803,14 @@ class FuncLower:
         elif k == "defer":
             kind, target, args = self.callparts(s[1])
             self.emit(["defer", kind, target, args])
+        elif k == "deferat":      # defer statement inside a range-over-func body: belongs to the frame recorded in s[1]
+            kind, target, args = self.callparts(s[2])
+            self.used.add(s[1])
+            self.emit(["defer", kind, target, args, s[1]])
+        elif k == "depth":
+            self.declared.add(s[1])
+            self.emit(["decl", s[1], ["int", 0]])
+            self.emit(["depth", s[1]])
         elif k == "gowait":
             self.call(s[1], [], op="gowait")
         elif k == "panic":
